@@ -104,6 +104,7 @@ type asyncRec struct {
 	user    int
 	seq     int // issue order within the user
 	execAt  int
+	execSeq int // global order in which the callbacks ran
 }
 
 // World is the state of one simulated run.
@@ -146,6 +147,7 @@ type World struct {
 	stopEverAsked    bool
 	started          bool
 	regLost          []string
+	execCounter      int
 	stopCtxErrSeen   bool
 	lcSnap           map[int]map[string]int
 	udp              *udpState
